@@ -214,7 +214,7 @@ Resume(a) ==
 Registered(a) == ac[a].pc # "none" /\ ac[a].st < Stopping
 InGroup(a) == ac[a].inPg /\ ac[a].st < Stopping
 JoinPg(a) ==
-  /\ ac[a].cb.k # "none" /\ ~ac[a].cb.susp
+  /\ "joinpg" \in EnvOps[a] /\ ac[a].cb.k # "none" /\ ~ac[a].cb.susp
   /\ Step(a, [ac[a] EXCEPT !.inPg = @ \/ ac[a].st < Stopping])
 \* actions a callback may perform on its own actor
 SelfKill(a) == "selfkill" \in EnvOps[a] /\ ac[a].cb.k # "none" /\ ~ac[a].cb.susp /\ Kill(a)
